@@ -607,7 +607,9 @@ def standard_check(P, tier, seed, replay=None):
         p = write_replay(pid, fp + '.ops', body)
         if rep.violation(fp, p, 'impl=%r expected=%r ops=%r' % ((dd or d)[1][:200], (dd or d)[2][:200], small[:12])):
             reported += 1
-    if not p_breaks and m_breaks:
+    # model-internal divergences are reported when no property-level VIOLATION was (P breaks that resolved to a recorded
+    # KNOWN-FINDING do not count: they used to mask every M-only divergence of a package that has a finding)
+    if m_breaks and not rep.violations:
         i, d = m_breaks[0]
         body = case_text(0, cases[i]) + '# correspondence broken on a model-internal observable (seed=%d case=%d)\n' \
                '# implementation: %s\n# model         : %s\n# %d of %d cases diverge; no property-level failing input found\n' % (
